@@ -562,7 +562,7 @@ def _program_instances(tier):
     from . import catalog
 
     return catalog.make_instances(tier, "C18", _program_body, "Reduction._accept_slice + lowering + PartialReduce kernels",
-                                  select=lambda name: name.startswith("sum("))
+                                  select=lambda name: name.startswith(("sum(", "moment(")))
 
 
 def instances(tier):
